@@ -17,6 +17,7 @@ package s2
 import (
 	"fmt"
 	"math"
+	"math/big"
 
 	"github.com/golang/geo/r3"
 	"github.com/golang/geo/s1"
@@ -377,8 +378,10 @@ func intersectionExact(a0, a1, b0, b1 Point) Point {
 
 	// The final Normalize() call is done in double precision, which creates a
 	// directional error of up to 2*dblError. (Precise conversion and Normalize()
-	// each contribute up to dblError of directional error.)
-	x := xP.Vector()
+	// each contribute up to dblError of directional error.) The exact vector is
+	// rescaled first so that tiny components do not underflow: x is zero only
+	// if the exact cross product is zero.
+	x := normalizableFromPrecise(xP).Normalize()
 
 	if x == (r3.Vector{}) {
 		// The two edges are exactly collinear, but we still consider them to be
@@ -404,6 +407,30 @@ func intersectionExact(a0, a1, b0, b1 Point) Point {
 	}
 
 	return Point{x}
+}
+
+// normalizableFromPrecise converts the exact vector to a float64 vector with
+// (up to rounding) the same direction, scaled by a power of two so that its
+// largest component has magnitude in [0.5, 1) and it can be normalized without
+// underflow or overflow. The result is zero only if p is exactly zero.
+func normalizableFromPrecise(p r3.PreciseVector) r3.Vector {
+	maxExp, nonZero := 0, false
+	for _, c := range []*big.Float{p.X, p.Y, p.Z} {
+		if c.Sign() == 0 {
+			continue
+		}
+		if exp := c.MantExp(nil); !nonZero || exp > maxExp {
+			maxExp, nonZero = exp, true
+		}
+	}
+	if !nonZero {
+		return r3.Vector{}
+	}
+	scaled := func(c *big.Float) float64 {
+		f, _ := new(big.Float).SetMantExp(c, -maxExp).Float64()
+		return f
+	}
+	return r3.Vector{X: scaled(p.X), Y: scaled(p.Y), Z: scaled(p.Z)}
 }
 
 // AngleContainsVertex reports if the angle ABC contains its vertex B.
